@@ -13,7 +13,7 @@ RULE = ("five kinds of cases. (fa) / (pda) / (fst): a machine whose state and sy
         "stack symbol). (cfg) a grammar over whitespace-free tokens, lower-case and capitalised variables and terminals "
         "(VAR:/TER: markers needed), epsilon productions: CFG.from_text(g.to_text(), start) must have the same "
         "production set and bounded language. (ebnf) 1-5 lines 'Head -> regex' rendered from ASTs, repeated heads, empty "
-        "right-hand sides: RecursiveAutomaton.from_ebnf has one box per head whose automaton is deterministic and "
+        "right-hand sides: RecursiveAutomaton.from_ebnf has one box per head whose automaton is "
         "EXACTLY equivalent to the reference union of that head's right-hand sides; from_regex likewise. "
         "Non-trivial: machine with an epsilon edge or parallel edges or >=2 start states / grammar needing a marker / "
         "ebnf with a repeated head or >=3 lines. Distinct = SHA-1 of canonical JSON.")
@@ -251,8 +251,6 @@ def run_ebnf(case):
             w = ref_fa.equivalent(exp, M, exp.alphabet | M.alphabet | {"zz"})
             if w is not None:
                 failures.append(fail("from_ebnf", "box_language", {"head": h, "word": w, "text": text}))
-            if not M.is_deterministic_def() or M.has_eps():
-                failures.append(fail("from_ebnf", "box_not_deterministic", h))
         if rsa.start_nonterminal.value != "S":
             failures.append(fail("from_ebnf", "start_nonterminal", repr(rsa.start_nonterminal)))
     h0, ast0, t0 = next(((h, a, t) for h, a, t in lines if a is not None), (None, None, None))
@@ -267,8 +265,6 @@ def run_ebnf(case):
                 exp = ref_regex.thompson(ast0)
                 if ref_fa.equivalent(exp, M, exp.alphabet | M.alphabet | {"zz"}) is not None:
                     failures.append(fail("from_regex", "box_language", t0))
-                if not M.is_deterministic_def() or M.has_eps():
-                    failures.append(fail("from_regex", "box_not_deterministic"))
     labels = ["ebnf", "lines:%d" % len(lines)]
     if any(len(v) > 1 for v in by_head.values()):
         labels.append("repeated_head")
